@@ -82,10 +82,20 @@ def run(chk):
     for a in adds:
         cl = PC.pc(a, stop=pair_loop[0], raw=True)
         need = [({"!((domain, name) in self._host_only_cookies)", "(domain == hostname)"}, "host-only cookies go only to the exact host"),
-                ({"!(len(cookie['path']) > path_len)"}, "cookie path not longer than the request path"),
+                ("PATHPREFIX", "the request path starts with the cookie's whole Path (the lookup key is the Path without its trailing slashes)"),
                 ({"!(is_not_secure)", "!(cookie['secure'])"}, "Secure cookies only over secure requests")]
         for w, why in need:
             host_only = "host-only" in why and any(len(c) == 2 and {str(l) for l in c} & {"(domain == hostname)"} and any((not l.pos) and l.text.endswith(" in self._host_only_cookies") for l in c) for c in cl)
+            if w == "PATHPREFIX":
+                # raw_path.startswith(cookie['path']) on the raw request path; a comparison of lengths is not enough (`/a/` vs `/ab`)
+                okp = any(len(c) == 1 and l.pos and M.match_text("$P.startswith(cookie['path'])", l.text) is not None and "raw_path" in l.text for c in cl for l in c)
+                if okp:
+                    chk.ok("C16.filter", a, f"`{K.short(a, 40)}` is behind: {why}")
+                else:
+                    chk.violation("C16.filter", a, K.short(a), "if not raw_path.startswith(cookie['path']): continue",
+                                  "the (domain, path) key under which a cookie is found is its Path without trailing slashes; comparing only the lengths afterwards sends a cookie with `Path=/a/` to `/ab` (same length, different path) and with `Path=/docs//` to `/docs/x`: RFC 6265 5.1.4 wants the cookie-path to be a prefix of the request-path",
+                                  path_condition=norm.fmt_cnf(cl)[:500])
+                continue
             if clause_has(cl, w) or host_only:  # the key expression of the host-only table is decided by C16.identity
                 chk.ok("C16.filter", a, f"`{K.short(a, 40)}` is behind: {why}")
             else:
@@ -207,6 +217,7 @@ def run(chk):
         chk.violation("C16.persist", ld, "_load_json_data", "host_only -> domain='' ; update_cookies ; _expire_cookie", "loading bypasses the acceptance rules or drops scope attributes")
     identity_rules(chk, repo)
     setcookie_rules(chk, repo)
+    hunt3_rules(chk, repo)
 
 
 def identity_rules(chk, repo):
@@ -287,6 +298,50 @@ def identity_rules(chk, repo):
     chk.expect_count("C16.maxage", n_m, 1, "Max-Age conversions")
 
 
+def hunt3_rules(chk, repo):
+    """Rule written after the third defect hunt (F199): the numbers of a cookie date (RFC 6265 5.1.1) are whole digit runs."""
+    import re as _re
+    from sa.consteval import Folder, NotConst, RegexConst
+    mod = repo.module(MOD)
+    folder = Folder(repo)
+    cls = repo.cls(MOD, CJ)
+    pd = cls.methods.get("_parse_date")
+    if pd is None:
+        chk.analysis_error("C16.persist.date: CookieJar._parse_date not found")
+        return
+    # token patterns and the way they are applied (`cls.DATE_X_RE.match(token)`)
+    WIT = {"DATE_HMS_TIME_RE": (["10:20:30", "1:2:3"], ["10:20:300", "10:20:3000"]), "DATE_DAY_OF_MONTH_RE": (["1", "31", "31st"], ["123", "2024"]),
+           "DATE_YEAR_RE": (["99", "1999", "2024x"], ["19999", "202400"])}
+    n = 0
+    for c in prog.calls_in(pd.node):
+        if not (isinstance(c.func, ast.Attribute) and c.func.attr in ("match", "fullmatch", "search") and isinstance(c.func.value, ast.Attribute) and c.func.value.attr in WIT):
+            continue
+        name, meth = c.func.value.attr, c.func.attr
+        src = next((st.value for st in cls.node.body if isinstance(st, ast.Assign) and norm.raw(st.targets[0]) == name), None)
+        if src is None:
+            chk.analysis_error(f"C16.persist.date: {name} is not a class constant of {CJ}")
+            continue
+        try:
+            rx = folder.eval(mod, src)
+        except NotConst as e:
+            chk.analysis_error(f"C16.persist.date: cannot fold {name}: {e}")
+            continue
+        if not isinstance(rx, RegexConst):
+            chk.analysis_error(f"C16.persist.date: {name} is not a compiled pattern")
+            continue
+        n += 1
+        cre = _re.compile(rx.pattern, rx.flags)
+        good, bad = WIT[name]
+        miss = [w for w in good if getattr(cre, meth)(w) is None]
+        extra = [w for w in bad if getattr(cre, meth)(w) is not None]
+        if not miss and not extra:
+            chk.ok("C16.persist.date", c, f"{name}.{meth}(token): a longer digit run is not read as a shorter number ({', '.join(bad)} refused)")
+        else:
+            chk.violation("C16.persist.date", c, f"{name} = {rx.pattern!r} applied with .{meth}()", "(?!\\d) after the last number (RFC 6265 5.1.1: followed by a non-digit or the end of the token)",
+                          f"the cookie-date token pattern takes the first digits of a longer run for the number (accepts {extra!r}{'; refuses ' + repr(miss) if miss else ''}): `Expires=Mon, 01 Jan 20240 00:00:00 GMT` is read as the year 2024 - the cookie expires (or lives) by a date the server never sent")
+    chk.expect_count("C16.persist.date", n, 3, "numeric cookie-date token patterns applied in _parse_date")
+
+
 def setcookie_rules(chk, repo):
     """Set-Cookie parsing (RFC 6265 5.2): an attribute the parser does not use is skipped, it never ends the parse - attributes after it
     (Secure, HttpOnly, Domain, Path, Max-Age) belong to the cookie that was already accepted, and losing them widens its scope."""
@@ -301,8 +356,9 @@ def setcookie_rules(chk, repo):
         n += 1
         cl = PC.pc(b, stop=loops[0], raw=True)
         units = {str(l) for c in cl if len(c) == 1 for l in c}
-        if {"!(match)", "!(morsel_seen)"} & units or any(u.startswith("!(") and "match" in u for u in units):
-            chk.ok("C16.setcookie", b, "the parse of a header stops only when nothing matches or before the first cookie pair was seen")
+        # (a piece the tokenising pattern cannot match - `;;`, `; =x` - is an attribute without use like any other: no reason to stop)
+        if "!(morsel_seen)" in units:
+            chk.ok("C16.setcookie", b, "the parse of a header stops only before the first cookie pair was seen")
         else:
             chk.violation("C16.setcookie", b, "break", "continue (ignore this cookie-av)",
                           "an attribute the parser has no use for ends the parse of the header after the cookie was already accepted: the Secure / HttpOnly / Domain / Path / Max-Age attributes that follow are dropped - `sid=secret; SameParty; Secure; Path=/account` is stored without Secure and with the default path, and is sent over plain http",
